@@ -315,7 +315,8 @@ fn c04_schedule(t: &mut Tracer, api: &str, n: u64, rng: &mut StdRng, data: &[u8]
     t.sig(format!("c04/{}/{}/{}", api, n.min(70001), style));
     // overshoot by one at the very start when N is small
     if n < 70000 && style % 2 == 0 {
-        ev_write(t, &mut w, kind, &data[..(n as usize + 1)], n as usize + 8, WFlags::default());
+        let outl = [n as usize + 8, n as usize, (n as usize).saturating_sub(1), 1][(style as usize / 2) % 4];
+        ev_write(t, &mut w, kind, &data[..(n as usize + 1)], outl, WFlags::default());
     }
     while steps < 40 {
         steps += 1;
@@ -342,7 +343,10 @@ fn c04_schedule(t: &mut Tracer, api: &str, n: u64, rng: &mut StdRng, data: &[u8]
             4 => {
                 // overshoot by one byte
                 if left < 70000 {
-                    ev_write(t, &mut w, kind, &data[..l + 1], l + 5, WFlags::default());
+                    let over = l + 1 + if rng.gen_bool(0.3) { rng.gen_range(0..6) } else { 0 };
+                    let outl = [0, 1, l.saturating_sub(1), l, l + 1, l + 5, l / 2][rng.gen_range(0..7)];
+                    ev_write(t, &mut w, kind, &data[..over], outl, WFlags::default());
+                    t.class("w:overshoot");
                 }
             }
             5 => {
